@@ -117,13 +117,14 @@ def stencil_grad(seed, k, eps, zmask, container='list', two_pt=False):
 # closed forms for Poisson models linear (affine) in their parameters
 
 class Lin:
-    def __init__(self, k, seed, affine, ns, pts=(10,)):
+    def __init__(self, k, seed, affine, ns, pts=(10,), scales=None):
         self.k, self.seed, self.affine, self.ns = k, seed, affine, tuple(ns)
         c = 1.0 + 0.3 / float(np.sum(pts))
         B = [b * c for b in OPS._basis(self.ns, k + 1, seed)]
         self.B0 = B[0] * (1.0 if affine else 0.0)
-        self.B = B[1:]
-        self.func = OPS.make_fn({'$fn': 'model', 'id': 'linear', 'args': [k, seed, bool(affine)]}, lambda w: w)
+        self.B = [b * (1.0 if not scales else float(scales[j])) for j, b in enumerate(B[1:])]
+        args = [k, seed, bool(affine)] + ([1.0, [float(x) for x in scales]] if scales else [])
+        self.func = OPS.make_fn({'$fn': 'model', 'id': 'linear', 'args': args}, lambda w: w)
 
     def unmasked(self, data):
         import dadi
@@ -216,7 +217,7 @@ def _relerr(x, y):
     return float(np.max(np.abs(x - y)) / max(np.max(np.abs(y)), 1e-300))
 
 
-def _gate(R1, R2, Rc, eps, conds, central, R4=None):
+def _gate(R1, R2, Rc, eps, conds, central, R4=None, noise=None):
     """Richardson-type a-posteriori bound: if R(h) = R* + C h^p (p>=1) then |R(h)-R*| <= |R(2h)-R(h)|; allow 2x,
     plus a round-off floor eps_mach*|ll|/h^2 amplified by the conditioning of H and J."""
     scale = max(float(np.max(np.abs(Rc))), 1e-300)
@@ -227,6 +228,8 @@ def _gate(R1, R2, Rc, eps, conds, central, R4=None):
         # guard against accidental cancellation between eps and 2*eps: also use the (2*eps, 4*eps) pair
         delta = max(delta, 0.5 * float(np.max(np.abs(np.asarray(R4) - np.asarray(R2)))))
     floor = 1e-12 / eps ** 2 * (1.0 + conds) * scale
+    if noise is not None:
+        floor = max(floor, 20.0 * noise * (1.0 + conds) * scale)
     bound = 2.0 * delta + floor
     out = {'err': e1, 'err_2eps': e2, 'bound': bound, 'rel': e1 / scale, 'floor': floor}
     ok = e1 <= bound
@@ -241,11 +244,11 @@ def _gate(R1, R2, Rc, eps, conds, central, R4=None):
 
 
 def closed_form(fn, k, seed, ns, p0, multinom, eps, dseed, nboot, log=False, nested=None, full=None, adjusts=None, perm=None, pts=(10,),
-                pcont='list', dmask=0, bcont='spectrum', acont='list'):
+                pcont='list', dmask=0, bcont='spectrum', acont='list', scales=None):
     """fn in FIM, GIM, LRT, Wald, score.  Calls dadi at eps and 2*eps, compares with the closed form."""
     import dadi
     from dadi import Godambe
-    lin = Lin(k, seed, multinom, ns, pts)
+    lin = Lin(k, seed, multinom, ns, pts, scales)
     func = lin.func
     shape = [n + 1 for n in ns]
     model = lin.M(p0)
@@ -331,8 +334,8 @@ def closed_form(fn, k, seed, ns, p0, multinom, eps, dseed, nboot, log=False, nes
     if log and fn in ('FIM', 'GIM'):
         qdiff = np.log(qdiff)
     central = all((v != 0 and not (v * 2 * eps < 1e-6)) for v in qdiff)
-    if conds > 1e6 or not np.all(np.isfinite(Rc)):
-        return {'ok': True, 'skipped': 'ill-conditioned closed form (cond %.3g)' % conds, 'what': 'closed form ' + fn}
+    if condn > 1e6 or not np.all(np.isfinite(Rc)):
+        return {'ok': True, 'skipped': 'ill-conditioned closed form (scaled cond %.3g)' % condn, 'what': 'closed form ' + fn}
     # relative nonlinearity of the log-likelihood over the stencil: the step in parameter j changes the model by h_j*dM/dq_j,
     # which must be small against the model itself, or the Taylor expansion behind any O(eps^p) statement has not set in
     Mq, Aq, _ = _derivs(lin, q, multinom)
@@ -344,6 +347,19 @@ def closed_form(fn, k, seed, ns, p0, multinom, eps, dseed, nboot, log=False, nes
         dM = np.abs(Aq[j][um]) * (abs(q[j]) if (log and fn in ('FIM', 'GIM')) else 1.0)
         rnl = max(rnl, float(np.max(4 * abs(hj) * dM / np.abs(Mq[um]))))       # 4*h: eps, 2*eps and 4*eps are all evaluated
     trunc = max(10 * eps ** 2, rnl ** 2) if central else max(eps, rnl)
+    # round-off of the difference quotients, relative to the (scaled) matrices they fill: every likelihood value carries about
+    # eps_mach*|ll|; second differences divide by h_j*h_k, first differences by h_j
+    import scipy.special
+    Dd = np.ma.getdata(data)
+    llmag = float(np.abs(np.sum((-Mq + Dd * np.log(Mq) - scipy.special.gammaln(Dd + 1))[um]))) + float(np.sum(Dd[um]))
+    hh = np.abs(np.array(steps, dtype=float))
+    dH = np.sqrt(np.abs(np.diag(H)))
+    noise = float(np.max(8 * EPSM * llmag / np.outer(hh, hh) / np.outer(dH, dH)))
+    if fn != 'FIM':
+        dJ = np.sqrt(np.abs(np.diag(J)))
+        noise = max(noise, float(np.max(8 * EPSM * llmag / hh / dJ)))
+    if noise * condn >= 0.02:
+        return {'ok': True, 'skipped': 'round-off dominated (relative noise %.3g x scaled cond %.3g)' % (noise, condn), 'what': 'closed form ' + fn}
     if condn * trunc >= 0.5:
         # the finite-difference result is in its pre-asymptotic regime (conditioning x truncation error >= 1/2): neither
         # the O(eps^p) statement nor any a-posteriori bound says anything here
@@ -351,7 +367,7 @@ def closed_form(fn, k, seed, ns, p0, multinom, eps, dseed, nboot, log=False, nes
                 'what': 'closed form ' + fn}
     if R1.shape != Rc.shape:
         return {'ok': False, 'what': 'closed form ' + fn, 'shape': [list(R1.shape), list(Rc.shape)]}
-    ok, out = _gate(R1, R2, Rc, eps, conds, central, R4)
+    ok, out = _gate(R1, R2, Rc, eps, condn, central, R4, noise)
     # amplification of the stencil's relative truncation error by the conditioning of H and J: the a-posteriori
     # bound and the order test are asymptotic statements, only meaningful while amp << 1
     amp = condn * trunc
@@ -364,7 +380,7 @@ def closed_form(fn, k, seed, ns, p0, multinom, eps, dseed, nboot, log=False, nes
         # that the discrepancy persists (a wrong formula does not converge to the closed form; a coarse step does)
         e3 = eps / 3.0
         Ra, Rb = call(e3), call(2 * e3)
-        ok3, out3 = _gate(Ra, Rb, Rc, e3, conds, central)
+        ok3, out3 = _gate(Ra, Rb, Rc, e3, condn, central, None, 9 * noise)
         out['refined'] = {'eps': e3, 'err': out3['err'], 'bound': out3['bound']}
         if ok3 or out3['err'] <= 0.5 * out['err']:
             ok = True
